@@ -45,13 +45,68 @@ def norm_stdout(b):
     return "\n".join(l for l in t.split("\n") if "Processed in" not in l)
 
 
+def storm_case(exe, wd, seed, case, K, rng, out):
+    """scale: more errors than any internal buffer / threshold of the collecting path (> 16 384 muted, > 4096 with context), coming from several validator threads"""
+    import frame
+    muted = (case // 6) % 2 == 0        # stratified: both flavours in every run
+    nl, per = (4, 5000) if muted else (2, 3000)
+    fp = frame.generate(rng, nl * per, payload="none", sane_headers=True)
+    for i, q in enumerate(fp):
+        q.f["system_id"] = 32
+        q.f["link_id"] = i % nl
+        q.f["fee_id"] = 0x1000 * (i % nl) + 3
+        q.f["stop_bit"] = 2 if i % 3 else q.f["stop_bit"]
+    data = frame.serialize(fp)
+    path = os.path.join(wd, "c%d.raw" % case)
+    write_file(path, data)
+    argv = [path] + rng.choice([["check", "sanity"], ["check", "all"]]) + (["-m"] if muted else [])
+    try:
+        ref = obs.run(exe, argv, workdir=wd, stats="json", tag="c%d" % case)
+        if ref.abnormal() or ref.stats is None:
+            out["viol"] = ("sched:abnormal", "abnormal end of the reference run: %s" % ref.abnormal(), save_replay("C05", "case%d" % case, {"stderr.txt": ref.stderr[-20000:]}, dict(argv=argv, seed=seed, case=case)))
+            return out
+        out["errors"] = ref.total_errors()
+        # (only the ordered list of displayed error entries counts: WARN log lines of different threads interleave freely and are not results)
+        def errs_hash(x):
+            return hashlib.sha1("\n".join(m.text for m in x.displayed_errors()).encode()).hexdigest()
+        ref_sig = (errs_hash(ref), norm_stdout(ref.stdout), hashlib.sha1(ref.stats_raw).hexdigest(), ref.rc)
+        orders = set()
+        for k in range(min(K, 8)):
+            sd = seed * 1000 + case * 100 + k
+            sched = ["%d:200" % sd, "%d:50" % sd, "%d:100:4:20:3" % sd, "%d:100:7:40:2" % sd][k % 4]
+            trace = os.path.join(wd, "c%d_%d.trace" % (case, k))
+            r = obs.run(exe, argv, workdir=wd, stats="json", env={"FASTPASTA_VERIF_SCHED": sched, "FASTPASTA_VERIF_TRACE": trace}, tag="c%d" % case)
+            out["runs"] += 1
+            if os.path.exists(trace):
+                with open(trace, "rb") as f:
+                    orders.add(hashlib.sha1(f.read()).hexdigest())
+                os.unlink(trace)
+            sig = (errs_hash(r), norm_stdout(r.stdout), hashlib.sha1(r.stats_raw or b"").hexdigest(), r.rc)
+            if sig != ref_sig:
+                part = ["error messages on stderr", "stdout (report)", "statistics file bytes", "exit status"][[a == b for a, b in zip(sig, ref_sig)].index(False)]
+                d = save_replay("C05", "case%d" % case, {"ref.stats": ref.stats_raw or b"", "run.stats": r.stats_raw or b""}, dict(seed=seed, case=case, argv=argv, sched=sched, what=part,
+                                note="input: frame.generate storm, see lib/props/c05.py storm_case (regenerated from seed / case)"))
+                out["viol"] = ("sched:%s" % part.split(" ")[0], "storm of %d errors on %d links (%s): run under schedule %s differs from the unperturbed run in: %s" % (
+                    out["errors"], nl, "muted" if muted else "with context", sched, part), d)
+                break
+        out["orders"] = len(orders)
+    finally:
+        os.unlink(path)
+    out["key"] = ("storm", muted, nl)
+    out["variant"] = "storm"
+    out["sample"] = "[storm] %d links, %d errors, %s, %d distinct arrival orders in %d runs" % (nl, out["errors"], "muted" if muted else "with context", out["orders"], out["runs"])
+    return out
+
+
 def one_case(args):
     exe, wd, seed, case, tier, K = args
     rng = rng_for(seed, case)
     out = dict(case=case, viol=None, runs=0, orders=0, errors=0, key=None, sample=None, same_offset=0)
     # variants (stratified): "trunc" = the input ends inside the payload of its last packet, whose RDH also carries errors (messages of the reader and of a
     # validator about the same packet); "filter" = a link filter plus an (ignored) -o next to the check, with more than one batch of matching packets
-    variant = {1: "trunc", 2: "filter"}.get(case % 6, "plain")
+    variant = {1: "trunc", 2: "filter", 3: "storm"}.get(case % 6, "plain")
+    if variant == "storm":
+        return storm_case(exe, wd, seed, case, K, rng, out)
     s = make_input(rng, hbfs=rng.choice([40, 70]) if variant == "filter" else None)
     if variant == "trunc":
         l, i = s.order[-1]
@@ -141,7 +196,7 @@ def run(res):
         if o["viol"]:
             res.violation(*o["viol"])
         if (o["orders"] >= 3 and o["errors"] > 20 and o["same_offset"] > 0) or (o["key"] and o["key"][0].startswith("view") and o["runs"]) or (
-                o.get("variant") == "trunc" and o["orders"] >= 2) or (o.get("variant") == "filter" and o["runs"] >= 6):
+                o.get("variant") in ("trunc", "storm") and o["orders"] >= 2) or (o.get("variant") == "filter" and o["runs"] >= 6):
             explored += 1
             res.nontrivial.add(o["case"])
         elif o["key"]:
@@ -150,7 +205,7 @@ def run(res):
             res.sample(o["sample"], cap=8)
     res.extra.update(cases=n, runs_per_case=K, cases_explored=explored, distinct_arrival_orders_total=tot_orders)
     res.rule = ("multi-link inputs (4..12 links) with several errors at the same offset and > 20 errors in total x {all, all its, all its-stave} x {-, -m} x {JSON, TOML}, plus stratified variants: input ending inside the "
-                "last payload whose RDH also has errors, and a link filter with an (ignored) -o next to the check on > 100 matching packets; each run "
+                "last payload whose RDH also has errors, a link filter with an (ignored) -o next to the check on > 100 matching packets, and storms of 6000 (with context) / 20000 (muted) errors from 2..4 links; each run "
                 "K times under distinct H1 schedules (yield/sleep <= 200 us, stalled validators / collector / statistics forwarder / analysis thread / reader) and compared with the unperturbed run; "
                 "non-trivial = case with >= 3 distinct pre-sort arrival orders observed (H2), > 20 errors and same-offset errors")
     res.min_nontrivial = 6 if quick else 30
